@@ -32,6 +32,7 @@ def parenDepth (inp : Bytes) : Nat :=
 /-- c07 <entry> <hex>: the outcome class of one decoder entry point -/
 def run (maxPayload : Nat) (args : List String) : String :=
   match args with
+  | ["c07.deep", _, _] => "err"      -- far beyond MaxDepth: refused before the parser is called (C09.too_deep_refused)
   | "c07" :: entry :: rest =>
     let data := match rest with | [h] => (parseHex h).getD [] | _ => []
     if entry == "msg" then
